@@ -10,6 +10,7 @@ from prop import SchedProp  # noqa: E402
 
 class C03(SchedProp):
     id = 'C03'
+    also = ['C03Q']
     props_modules = ['CylcModel.Props.C03']
     theorems = [
         'CylcModel.C03.shutdown_sound',
